@@ -160,6 +160,7 @@ func checkC01(c *Ctx) {
 		w.f.db.SaveEntity(db.NewEntity(env.name(1), env.ident(11).Pub, nil))
 		es := make([]int, nconn)
 		started := make([]bool, nconn)
+		lastE := make([]int, nconn)
 		var toks, outs []string
 		sawRefused, sawServed := false, false
 		steps := 3 + r.Intn(38)
@@ -224,6 +225,7 @@ func checkC01(c *Ctx) {
 					m = pvMsg{Kind: "v1", Good: true, E: es[conn]}
 				}
 				env.setEntry(m)
+				verifiedBefore := env.installed(addr) != "plain"
 				tok = fmt.Sprintf("req %d verify %s", conn, m.tok())
 				st, body, _, pm := w.f.Do(addr, "POST", "/pair-verify", "application/pairing+tlv8", env.concretise(conn, m))
 				if m.Kind == "v1" && m.Good && st == 200 {
@@ -232,9 +234,19 @@ func checkC01(c *Ctx) {
 						env.accPub[conn] = k
 					}
 				}
+				wasVerified := verifiedBefore
 				out = "verify " + env.observe(addr, st, body, pm)
+				// ---- direct oracle: only the genuine finish of the running exchange may verify the connection
+				genuine := started[conn] && m.Kind == "v3" && m.tok() == genuineV3(conn, lastE[conn], m.Name, m.EntryPk).tok()
+				if nowVerified := !strings.HasSuffix(out, " plain"); nowVerified && !wasVerified && !genuine {
+					c.Violate("connection became verified without a valid pair-verify finish (protected endpoints are now served to it)", id,
+						append(append([]string{}, toks...), tok), "still unverified", out)
+				}
 				if !m.noop() {
 					started[conn] = m.Kind == "v1" && m.Good && strings.HasPrefix(out, "verify tlv 2 - ")
+					if started[conn] {
+						lastE[conn] = m.E
+					}
 				}
 				c.Hist("verify:" + firstWords(out, 4))
 			default:
